@@ -21,6 +21,7 @@ the real code by the check, corpus/regress/C15), and the part that does hold is 
 import DSProofs.Lemmas.BloomHist
 import DSProofs.Lemmas.BloomLocal
 import DSProofs.Lemmas.BloomWitness
+import DSProofs.Lemmas.BloomFixed19
 import DSModel.Bloom.Hash
 import DSGen.Bloom
 namespace DS.Bloom
@@ -36,6 +37,10 @@ def genParams : Params :=
 bit array at byte 32 (where the sequential readers/writers put them), the dirty marker is 2^64-1 ≠ any count. -/
 theorem genParams_layout : genParams.Layout ∧ genParams.dirty = 2 ^ 64 - 1 ∧ genParams = refParams :=
   ⟨⟨by decide, by decide⟩, by decide, by decide⟩
+
+/-- … and the wire constants the readers rely on (side condition `Params.Wire` of the repaired-model theorems). -/
+theorem genParams_wire : genParams.Wire :=
+  ⟨⟨by decide, by decide⟩, by decide, by decide, by decide, by decide, by decide, by decide⟩
 
 /-- the real hashing of the `uint64_t` overload: h0 = XXH64(8 LE bytes, seed), h1 = XXH64(8 LE bytes, h0) -/
 def hfU64 (x : Nat) (seed : Nat) : Option (Nat × Nat) := hashPair XXH.refPrimes (.u64 x) seed
@@ -104,12 +109,27 @@ report item 5 and answers absent). -/
 theorem bloom_no_false_negative_full_false_owned : fnWitness refParams Fix.asCoded hfU64 witnessQauDirty 0 5 = true := by
   decide +kernel
 
-/-- with the three repairs the same two histories keep their promises (the general theorem for the repaired model
-is `bloom_no_false_negative_fixed` when present; this is its instance on the witnesses). -/
+/-- REPAIRED MODEL (`Fix.fixed` = the three patches of proposed_fixes/C15-*.patch): the FULL statement holds for every
+wire-compatible layout, every hash function and every history whose filters stay below 2^32 bits (`Op.small`: above that the
+32-bit `num_longs << 6` of the readers wraps — a separate limitation of the code, see the report).  Proof: the invariant
+`Good` (Lemmas/BloomGood.lean: every promised view covers its must-set and is not "empty" while the must-set is not; an
+in-sync view's cached count is exact or the view is dirty; the stored count of a block that carries promises is exact or
+the dirty marker; …) is preserved by every operation (Lemmas/BloomFixed*.lean). -/
+theorem bloom_no_false_negative_fixed {ι : Type} [DecidableEq ι] (P : Params) (hP : P.Wire) (hf : ι → Nat → Option (Nat × Nat))
+    (ops : List (Op ι)) (hs : ∀ op, op ∈ ops → Op.small op) (v : Nat) (f : Filter) (i : VInfo ι)
+    (hv : (prun P Fix.fixed hf PWorld.start ops).w.filters v = some f)
+    (hi : (prun P Fix.fixed hf PWorld.start ops).p.vi v = some i) (_hp : i.promised = true) (x : ι) (hx : x ∈ i.M) :
+    query P (prun P Fix.fixed hf PWorld.start ops).w f (hf x f.seed) = true :=
+  query_of_viewOK P hf _ v f hv _ i ((good_prun P hf hP PWorld.start (good_empty P hf) ops hs).view v f i hv hi) x hx
+
+/-- the two witness histories keep their promises in the repaired model (instances of the theorem above, evaluated). -/
 example : (let s := prun refParams Fix.fixed hfU64 PWorld.start witnessRewrap
            (s.w.filters 1).map (fun f => query refParams s.w f (hfU64 5 f.seed))) = some true ∧
           (let s := prun refParams Fix.fixed hfU64 PWorld.start witnessQauDirty
            (s.w.filters 0).map (fun f => query refParams s.w f (hfU64 5 f.seed))) = some true := by decide +kernel
+
+example : (∀ op, op ∈ witnessRewrap → Op.small op) ∧ (∀ op, op ∈ witnessQauDirty → Op.small op) := by
+  constructor <;> intro op hop <;> simp [witnessRewrap, witnessQauDirty] at hop <;> rcases hop with rfl | rfl | rfl | rfl <;> simp [Op.small]
 
 /-- non-vacuity of the partial theorem: in the D13 history the ghost does record item 5 for the re-wrapped view
 (so the theorem says its bits ARE set in view 1 — only the empty short-circuit makes `query` false), and in a
@@ -164,6 +184,26 @@ theorem bloom_qau_prior_partial (P : Params) (fx : Fix) (w : World) (v : Nat) (f
 writable wrap answers `query(5) = false` but `query_and_update(5) = true`. -/
 theorem bloom_qau_prior_full_false : ¬ bloom_qau_prior_full refParams Fix.asCoded hfU64 :=
   not_qauPrior_of_witness refParams Fix.asCoded hfU64 witnessRewrap 1 5 true (by decide +kernel)
+
+/-- REPAIRED MODEL: the FULL statement holds (same side conditions as `bloom_no_false_negative_fixed`): on every promised
+in-sync view `query_and_update x` returns exactly `query x` evaluated before the call. -/
+theorem bloom_qau_prior_fixed {ι : Type} [DecidableEq ι] (P : Params) (hP : P.Wire) (hf : ι → Nat → Option (Nat × Nat))
+    (ops : List (Op ι)) (hs : ∀ op, op ∈ ops → Op.small op) (v : Nat) (f : Filter) (i : VInfo ι) (x : ι) (b : Bool)
+    (hv : (prun P Fix.fixed hf PWorld.start ops).w.filters v = some f)
+    (hi : (prun P Fix.fixed hf PWorld.start ops).p.vi v = some i) (hp : i.promised = true)
+    (hin : inSync (prun P Fix.fixed hf PWorld.start ops).p v f i = true)
+    (hq : (step P Fix.fixed hf (prun P Fix.fixed hf PWorld.start ops).w (.qau v x)).2 = .bool b) :
+    b = query P (prun P Fix.fixed hf PWorld.start ops).w f (hf x f.seed) := by
+  have hg := good_prun P hf hP PWorld.start (good_empty P hf) ops hs
+  simp only [step, hashFor, hv] at hq
+  by_cases hro : f.readOnly = true
+  · cases hh : hf x f.seed with
+    | none => rw [hh] at hq; simp [opQau, hv] at hq; simp [query, hq]
+    | some h => rw [hh] at hq; simp [opQau, hv, hro] at hq
+  · have hro' : f.readOnly = false := by simpa using hro
+    rw [inSync_eq] at hin
+    rw [qau_eq_query_of_viewOK P hf Fix.fixed _ v f hv _ i (hg.view v f i hv hi) (hg.fwf v f hv) hp hin hro' (hf x f.seed)] at hq
+    injection hq with hq; exact hq.symm
 
 example : (opQau refParams Fix.asCoded (run refParams Fix.asCoded hfU64 World.empty [.new 0 64 3 7, .upd 0 5]) 0 (hfU64 5 7)).2 = .bool true ∧
           (opQau refParams Fix.asCoded (run refParams Fix.asCoded hfU64 World.empty [.new 0 64 3 7, .upd 0 5]) 0 (hfU64 6 7)).2 = .bool false := by
